@@ -87,6 +87,8 @@ func alphabet() []record {
 		{tag: "file-denied", aa: true, fields: file("DENIED", "open", "foo", "/srv/data/a", "r")},
 		{tag: "file-allowed", aa: true, fields: file("ALLOWED", "mknod", "foobar", "/srv/data/b", "c")},
 		{tag: "child-profile", aa: true, fields: file("DENIED", "open", "foo//null-/srv/bin/tool", "/srv/data/n", "r")},
+		{tag: "dotted-profile", aa: true, fields: file("DENIED", "open", "foo.bar", "/srv/data/dot", "r")},
+		{tag: "dotless-profile", aa: true, fields: file("DENIED", "open", "fooxbar", "/srv/data/nodot", "r")},
 		{tag: "file-audit", aa: true, fields: file("AUDIT", "open", "bar", "/srv/data/c", "w")},
 		{tag: "dbus", aa: true, user: true, fields: []kv{{"apparmor", "DENIED", false}, {"operation", "dbus_method_call", false}, {"bus", "system", false}, {"path", "/org/a", false},
 			{"interface", "org.a", false}, {"member", "Get", false}, {"mask", "send", false}, {"name", "org.b", false}, {"pid", "0", true}, {"label", "foo//&unconfined", false}, {"peer_pid", "0", true}, {"peer_label", "unconfined", false}}},
@@ -214,7 +216,7 @@ func c14(minLen, maxLen, shard, of int) int {
 		A = B
 	}
 	n := 0
-	filters := []string{"", "foo", "bar", "zzz", "foo//"}
+	filters := []string{"", "foo", "bar", "zzz", "foo//", "foo.bar"}
 	for L := minLen; L <= maxLen; L++ {
 		enum.Tuples(len(A), L, shard, of, func(seq []int) {
 			tags := []string{}
@@ -227,6 +229,12 @@ func c14(minLen, maxLen, shard, of int) int {
 					lines = append(lines, line(A[s], i+1, carrier))
 				}
 				text := strings.Join(lines, "\n") + "\n"
+				switch {
+				case carrier == carrierAudit && len(seq)%2 == 0:
+					text = strings.TrimSuffix(text, "\n") // a log whose last line has no newline
+				case carrier == carrierSyslog && len(seq)%2 == 1:
+					text = strings.ReplaceAll(text, "\n", "\r\n") // CRLF line ends
+				}
 				for _, flt := range filters {
 					n++
 					// reference reader: expected events in input order; records whose reporting the property leaves open
